@@ -9,6 +9,7 @@ that a shifted index *resolves* to the dataset and sample it was drawn for, and 
 -/
 import KDVerif.Props.C04
 import KDVerif.Lemmas.InterleavedSide
+import KDVerif.Lemmas.InterleavedStream
 
 namespace KDVerif.C05
 open KDVerif.Interleaved
@@ -65,6 +66,17 @@ theorem side_index_resolves (a : Args) (i x : Nat) (hi : i < a.configs.length)
   apply concatGet_offset
   · simp [dsSizes]; omega
   · simpa [dsSizes] using hx
+
+/-- **no batch mixes datasets, and the stream ends on a batch boundary**: for every geometry, budget, config
+    set and checkpoint, with main indices inside the main data source and side samplers that yield
+    `len(sampler)` in-range indices per pass, the batch sampler leaves no remainder and every batch it cuts
+    lies within ONE dataset's index range of the concat dataset (so the collator dispatch never sees a mix) -/
+theorem no_batch_mixes_datasets (a : Args) (main : Nat → List Nat) (side : Nat → Nat → List Nat)
+    (hB : 0 < a.B) (hS : 0 < spe a) (hmain : ∀ e, spe a ≤ (main e).length)
+    (hmainlt : ∀ e x, x ∈ main e → x < a.mainDsLen) (hside : SideOk a side)
+    (n : Nat) (s : Start) (evs : List Ev) (h : l1 a main side n s = some evs) :
+    (batchSampler evs).2 = [] ∧ ∀ b ∈ (batchSampler evs).1, ∃ d, ∀ i ∈ b, inDs (dsSizes a) d i :=
+  stream_batches_unmixed a main side hB hS hmain hmainlt hside n s evs h
 
 /-- main indices resolve to dataset 0 -/
 theorem main_index_resolves (a : Args) (x : Nat) (hx : x < a.mainDsLen) :
